@@ -115,7 +115,7 @@ pub fn o_close(a: &Analysis) -> Vec<Violation> {
                 (OptAfter::Taken, _) => Some("error but the Option was emptied".into()),
                 _ => None,
             },
-            (Op::ASend { .. } | Op::ARecv { .. }, Res::Cancelled) if r.polls == 0 => None,
+            (Op::ASend { .. } | Op::ARecv { .. } | Op::StreamNext { .. }, Res::Cancelled) if r.polls == 0 || r.reg.is_none() => None,
             (op, x) if op.is_send_like() => Some(format!("{:?}", x)),
             (Op::Iter { .. }, Res::IterVals(vals)) if vals.is_empty() => None,
             (Op::StreamNext { .. }, Res::StreamEnd) => None,
